@@ -124,7 +124,16 @@ func alphabet() []opDef {
 	for _, a := range []string{"create t2 (a, b) key(a)", "drop data", "drop nosuch", "alter data create (c)",
 		"create data (k) key(k)"} {
 		a := a
-		add("Admin("+a+")", true, "", func(s *side) string { s.dbms.Admin(a, nil); return "ok" })
+		// A schema change of a table that an open update transaction has used
+		// aborts that transaction ("conflict with exclusive") asynchronously in
+		// the checker goroutine: WHEN the transaction notices is a race inside
+		// db19 (on either side), not a client-server matter. Such schema
+		// changes are therefore not issued while an update transaction is open.
+		needs := ""
+		if strings.Contains(a, "data") {
+			needs = "!U"
+		}
+		add("Admin("+a+")", true, needs, func(s *side) string { s.dbms.Admin(a, nil); return "ok" })
 	}
 	add("Check", false, "", func(s *side) string { return s.dbms.Check(false) })
 	// documented difference (Database.Cursors: "only works client-server, always 0 standalone"): executed, value not compared
@@ -262,6 +271,10 @@ func (s *side) applicable(op *opDef) bool {
 			}
 		case "U":
 			if s.T == nil || !strings.HasPrefix(s.T.String(), "ut") {
+				return false
+			}
+		case "!U":
+			if s.T != nil && strings.HasPrefix(s.T.String(), "ut") {
 				return false
 			}
 		case "Q":
@@ -470,6 +483,15 @@ func runDiff(byName map[string]*opDef, seq []string) (res diffResult) {
 	return
 }
 
+// the operations used for the first two of three levels
+var mutCore = map[string]bool{
+	"Admin(create t2 (a, b) key(a))": true, "Admin(drop data)": true, "Transaction(read)": true, "Transaction(update)": true,
+	"Cursor(data sort k)": true, "T.Complete": true, "T.Abort": true, "T.Query(data sort k)": true, "T.Query(data join other)": true,
+	"T.Action(insert { k: 3, v: 'three' } into data)": true, "T.Action(update data where k is 2 set v = 'TWO')": true,
+	"T.Action(delete data where k is 2)": true, "T.Delete(off)": true, "T.Update(off,k=7)": true, "Q.Get(+)": true, "Q.Get(-)": true,
+	"Q.Rewind": true, "Q.Output(k=5)": true, "Q.Close": true, "C.Get(+)": true, "SessionId(abc)": true,
+}
+
 // canonical witnesses of the classified differences
 var witnesses = map[string][]string{
 	"readcount-writecount-not-implemented-by-server": {"Transaction(update)", "T.Query(data sort k)", "Q.Get(+)", "T.ReadCount"},
@@ -501,7 +523,7 @@ func seqdiff(c *lib.Ctx) {
 			mutNames = append(mutNames, ops[i].Name)
 		}
 	}
-	depth := lib.Pick(c, 2, 3)
+	depth := lib.Pick(c, 2, 3) // levels on top of a prefix
 	c.Set("seqdiff_alphabet", names)
 	c.Set("seqdiff_alphabet_size", len(names))
 	c.Set("seqdiff_depth_on_top_of_prefix", depth)
@@ -523,8 +545,12 @@ func seqdiff(c *lib.Ctx) {
 			}
 		}
 	}
-	var dfs func(seq []string, extra int)
-	dfs = func(seq []string, extra int) {
+	// levels[i] = the operations tried at position i (on top of a prefix). The
+	// last level is always the whole alphabet; the levels before it range over
+	// operations that change handles or data (the others cannot influence what
+	// follows): all of them for two levels, a core subset for three levels.
+	var dfs func(seq []string, levels [][]string, at int)
+	dfs = func(seq []string, levels [][]string, at int) {
 		if c.Expired() {
 			return
 		}
@@ -550,43 +576,45 @@ func seqdiff(c *lib.Ctx) {
 			}
 			c.Fail(f.class, diffCase{Seq: seq}, "sequence %s: %s", strings.Join(seq, " ; "), f.msg)
 		}
-		if len(o.fails) == 0 && c.NSamples() < 3 && extra == depth && c.Shard == 0 && len(seq) > 2 {
+		if len(o.fails) == 0 && c.NSamples() < 3 && at == len(levels) && c.Shard == 0 && len(seq) > 2 {
 			c.Sample(map[string]any{"operations => result on both sides": o.trace})
 		}
-		if len(o.fails) > 0 || extra == depth {
+		if len(o.fails) > 0 || at == len(levels) {
 			return
 		}
-		// the deepest level uses the whole alphabet; the levels above it only
-		// the operations that change handles or data (the others cannot
-		// influence what follows)
-		next := names
-		if extra+1 < depth {
-			next = mutNames
-		}
-		for _, n := range next {
-			dfs(append(append([]string(nil), seq...), n), extra+1)
+		for _, n := range levels[at] {
+			dfs(append(append([]string(nil), seq...), n), levels, at+1)
 		}
 	}
-	// shard on (prefix, first operation)
+	var coreNames []string
+	for _, n := range mutNames {
+		if mutCore[n] {
+			coreNames = append(coreNames, n)
+		}
+	}
+	plans := [][][]string{{mutNames, names}}
+	if !c.Quick() {
+		plans = append(plans, [][]string{coreNames, coreNames, names})
+		c.Set("seqdiff_core_operations(first two of three levels)", coreNames)
+	}
+	// shard on (plan, prefix, first operation)
 	item := 0
-	for _, p := range prefixes {
-		first := names
-		if depth > 1 {
-			first = mutNames
-		}
-		if c.Shard == 0 && len(p) > 0 {
-			// the prefix itself
-			o := runDiff(byName, p)
-			for _, f := range o.fails {
-				c.Fail(f.class, diffCase{Seq: p}, "prefix %s: %s", strings.Join(p, " ; "), f.msg)
+	for pi, levels := range plans {
+		for _, p := range prefixes {
+			if c.Shard == 0 && len(p) > 0 && pi == 0 {
+				// the prefix itself
+				o := runDiff(byName, p)
+				for _, f := range o.fails {
+					c.Fail(f.class, diffCase{Seq: p}, "prefix %s: %s", strings.Join(p, " ; "), f.msg)
+				}
 			}
-		}
-		for _, n := range first {
-			item++
-			if item%c.NShards != c.Shard {
-				continue
+			for _, n := range levels[0] {
+				item++
+				if item%c.NShards != c.Shard {
+					continue
+				}
+				dfs(append(append([]string(nil), p...), n), levels, 1)
 			}
-			dfs(append(append([]string(nil), p...), n), 1)
 		}
 	}
 	if c.Expired() {
